@@ -59,6 +59,10 @@ def cases(draw):
             lines.append(draw(st.sampled_from(["", "   ", "; just a comment", " ;c", "\t"])))
         if item[0] == "g":
             body = item[1]
+            if draw(st.integers(0, 9)) == 0:
+                # a sub-coded command: the live hooks receive code and sub-code separately ("G91", "1")
+                lines.append(draw(st.sampled_from(["G91.1", "G90.1", "G28.1 X", "M204.1 S5", "G10.1", "G11.1", "G1.0 X3 Y3", "G92.1", "G20.1", "G21.1",
+                                                   "M117.1 sub", "G38.2 Z-1", "G0.1 X2"])))
             if draw(st.integers(0, 4)) == 0:
                 body = "N%d %s" % (n, body)
                 n += 1
